@@ -23,6 +23,17 @@ Theorem thin_entries_written_where_claimed : forall pre e post n,
   zlen (pack_header n ++ concat (map entry_bytes pre)) = e_off e.
 Proof. exact written_where_claimed. Qed.
 
+(* A ref-delta whose base was not injected before: the object the lookup returns is emitted directly in front of it
+   (kind, data, compressed bytes as looked up) and the delta is rewritten into an ofs-delta whose distance is exactly
+   the distance to that injected entry; its own compressed bytes and sizes are untouched. *)
+Theorem thin_ref_delta_gets_its_base : forall odb s e id o out s' stop,
+  e_hdr e = HRef id -> rfind_oid (changes s) id = None -> lookup odb id = Some o ->
+  step odb s e = Some (out, s', stop) ->
+  exists b e', out = [IEntry b; IEntry e'] /\ stop = false /\
+    e_hdr b = HBase (o_kind o) /\ e_data b = o_data o /\ e_comp b = o_comp o /\
+    e_hdr e' = HOfs (e_off e' - e_off b) /\ e_comp e' = e_comp e /\ e_dsize e' = e_dsize e /\ e_data e' = e_data e.
+Proof. exact ref_delta_gets_its_base. Qed.
+
 (* Delta-tree traversal: two arbitrary schedules (any interleaving of "inflate a root" / "resolve a child whose base is
    resolved", nodes possibly handled more than once) agree on the object, CRC and root flag at every pack offset. *)
 Theorem traversal_any_two_schedules_agree : forall ns d1 d2 r1 r2,
